@@ -41,7 +41,7 @@ RULE = ("configurations = MaxEvaluationCost {60,400} x MaxCallDepth {6,12} x Sta
         "mapping insert by index, m+m, m+=m, m*m, buffer +, literal aggregates of 70) each in a 9-step doubling or +1 loop that crosses "
         "the limit, once plain and once with every step inside a catch; refused mapping insert / array append repeated 1,2,3,4,8,16,32 "
         "times inside catch followed by a full consistency check of the container.  Monitor (hook H1) at EVERY instruction boundary: "
-        "instructions <= 3 x MaxEvaluationCost, control frames <= MaxCallDepth, sp < end_of_stack, size of the value on top of the stack; "
+        "instructions <= 3 x MaxEvaluationCost, control frames <= MaxCallDepth, sp inside the configured StackSize, size of the value on top of the stack; "
         "at the end every value reachable from the object's variables and the return value; a limit error raised (recorded inside "
         "error_handler()) while code after the outermost catch still runs = catch swallowed it; abort at 20 x the bound = runaway")
 
